@@ -7,7 +7,7 @@ after the four documented default shape prefixes were all found taken.
 Trusted base: rdflib / SPARQLWrapper internals (rdflib-parsed inputs iterate in rdflib's order;
 blank-node identifiers of the SHACL graph are random by design, which the property permits)."""
 from ..report import Floor
-from ..rules import det, globalstate
+from ..rules import det, globalstate, plumb
 from .. import exceptions
 from .c18 import global_obligations
 
@@ -20,6 +20,7 @@ def check(ctx, tier):
     obs += o_src
     o_glob, _ = global_obligations(ctx, "D")
     obs += o_glob
+    obs += ctx.attempt(lambda c, cl: plumb.exclusive_source(c, cl, "rdflib_graph")[0], ctx, "D-d", default=[])
     exceptions.apply(obs)
     return {"obs": obs, "floors": [Floor("set constructions examined", n_sets, 10), Floor("other nondeterminism sources", n_src, 2)],
             "explanation": "Every construction of a set (literal, comprehension, set(), set algebra) in the package is followed along copy "
